@@ -11,7 +11,8 @@ current tree that is NOT in that list (after the rename-back stage gave renamed 
   * whose E mentions nothing that is re-bound or mutated between the binding and its last read, and is not captured by
     a comprehension variable at a read site,
   * and - when E draws random numbers - is read exactly once,
-  * in a function that still has every local recorded for it (otherwise the unknown name may be a renamed old one),
+  * and is not bound the way a recorded local that has disappeared was bound (local names aside): such a name may be that
+    local renamed (a renaming the rename-back stage could not resolve), not a new temporary,
 
 is substituted for its reads and the binding is dropped.  Anything else is left exactly as it is.  The substitution
 is the inverse of a semantics-preserving edit on the parsed trees only; it decides nothing by itself."""
@@ -161,7 +162,7 @@ def _captured(stmt: ast.stmt, name: str, free: Set[str]) -> bool:
     return walk(stmt, set())
 
 
-def _one_pass(fn, recorded: Dict[str, list]) -> Optional[str]:
+def _one_pass(fn, recorded: Dict[str, list], suspects: Set[str] = frozenset()) -> Optional[str]:
     par = _params(fn)
     bs = bindings(fn)
     nested_names = set()
@@ -170,7 +171,7 @@ def _one_pass(fn, recorded: Dict[str, list]) -> Optional[str]:
             nested_names |= {x.id for x in ast.walk(n) if isinstance(x, ast.Name)}
     declared = {nm for n in _own(fn) if isinstance(n, (ast.Global, ast.Nonlocal)) for nm in n.names}
     for name in sorted(bs):
-        if name in recorded or name in par or name in nested_names or name in declared or name == "_":
+        if name in recorded or name in par or name in nested_names or name in declared or name == "_" or name in suspects:
             continue
         if len(bs[name]) != 1 or bs[name][0][0] != "assign":
             continue
@@ -223,12 +224,22 @@ def _one_pass(fn, recorded: Dict[str, list]) -> Optional[str]:
 def inline_new_temps(fn, recorded: Dict[str, list]) -> List[str]:
     done = []
     # a recorded local that is gone may be living on under one of the unknown names (a renaming the rename-back stage
-    # could not resolve): then an unknown name is not evidence of a NEW temporary, and nothing is substituted
+    # could not resolve): an unknown name bound like a vanished local - up to the names of locals - is left alone
     present = {n.id for n in _own(fn) if isinstance(n, ast.Name)} | _params(fn)
-    if any(r not in present for r in recorded):
-        return done
+    missing = [r for r in recorded if r not in present and r != "_"]
+    suspects: Set[str] = set()
+    if missing:
+        import re
+        from .renameback import signature
+        cur = signature(fn)
+        local_names = set(recorded) | set(cur)
+
+        def anon(sig):
+            return tuple(re.sub(r"\b[A-Za-z_]\w*\b", lambda m: "_" if m.group(0) in local_names else m.group(0), x) for x in sig)
+        gone = {anon(recorded[r]) for r in missing}
+        suspects = {t for t in cur if t not in recorded and anon(cur[t]) in gone}
     for _ in range(40):
-        nm = _one_pass(fn, recorded)
+        nm = _one_pass(fn, recorded, suspects)
         if nm is None:
             break
         done.append(nm)
